@@ -22,21 +22,29 @@ Proof.
   apply Z.eqb_eq in E. exfalso. apply Hni. rewrite E. apply in_map. exact Hin.
 Qed.
 
-Lemma find_pod_some pv ps p : find_pod pv ps = Some p -> In p ps /\ pid p = pv.
+Lemma pkey_eqb_eq a b : pkey_eqb a b = true <-> a = b.
+Proof.
+  unfold pkey_eqb. destruct a as [a1 a2], b as [b1 b2]. cbn [fst snd]. rewrite andb_true_iff, !Z.eqb_eq.
+  split; [intros [-> ->]; reflexivity|intros H; inversion H; split; reflexivity].
+Qed.
+Lemma pkey_eqb_refl a : pkey_eqb a a = true.
+Proof. apply pkey_eqb_eq. reflexivity. Qed.
+
+Lemma find_pod_some pv ps p : find_pod pv ps = Some p -> In p ps /\ pkey p = pv.
 Proof.
   induction ps as [|a t IH]; cbn [find_pod]; [discriminate|].
-  destruct (pid a =? pv) eqn:E.
-  - intros H; inversion H; subst. apply Z.eqb_eq in E. split; [left; reflexivity|exact E].
+  destruct (pkey_eqb (pkey a) pv) eqn:E.
+  - intros H; inversion H; subst. apply pkey_eqb_eq in E. split; [left; reflexivity|exact E].
   - intros H. destruct (IH H) as [H1 H2]. split; [right; exact H1|exact H2].
 Qed.
 
-Lemma find_pod_in ps p : NoDup (map pid ps) -> In p ps -> find_pod (pid p) ps = Some p.
+Lemma find_pod_in ps p : NoDup (map pkey ps) -> In p ps -> find_pod (pkey p) ps = Some p.
 Proof.
   induction ps as [|a t IH]; cbn [find_pod map]; intros Hnd Hin; [destruct Hin|].
   inversion Hnd as [|? ? Hni Hnd']; subst.
-  destruct Hin as [->|Hin]; [rewrite Z.eqb_refl; reflexivity|].
-  destruct (pid a =? pid p) eqn:E; [|apply IH; assumption].
-  apply Z.eqb_eq in E. exfalso. apply Hni. rewrite E. apply in_map. exact Hin.
+  destruct Hin as [->|Hin]; [rewrite pkey_eqb_refl; reflexivity|].
+  destruct (pkey_eqb (pkey a) (pkey p)) eqn:E; [|apply IH; assumption].
+  apply pkey_eqb_eq in E. exfalso. apply Hni. rewrite E. apply in_map. exact Hin.
 Qed.
 
 Lemma nodupb_NoDup l : nodupb l = true -> NoDup l.
@@ -44,8 +52,8 @@ Proof.
   induction l as [|x t IH]; cbn [nodupb]; intros H; [constructor|].
   apply andb_true_iff in H. destruct H as [H1 H2]. constructor; [|apply IH; exact H2].
   intros Hin. apply negb_true_iff in H1.
-  assert (existsb (Z.eqb x) t = true) as E.
-  { apply existsb_exists. exists x. split; [exact Hin|apply Z.eqb_refl]. }
+  assert (existsb (pkey_eqb x) t = true) as E.
+  { apply existsb_exists. exists x. split; [exact Hin|apply pkey_eqb_refl]. }
   rewrite E in H1. discriminate.
 Qed.
 
@@ -149,12 +157,12 @@ Section Pass.
     cdry c = false ->
     find_row (rid r) tbl = Some r -> rcls r = src_cls prod -> targets prod tbl <> [] ->
     forall ps st dm,
-      (forall p, In p ps -> find_pod (pid p) (r_pods prod r) = Some p /\ fit_ok c prod tbl p = true) ->
+      (forall p, In p ps -> find_pod (pkey p) (r_pods prod r) = Some p /\ fit_ok c prod tbl p = true) ->
       valid_pass c tbl prod st (fst (fst (evict_pods c prod r ps st dm)))
                               (snd (fst (evict_pods c prod r ps st dm))).
   Proof.
     intros Hd Hr Hc Ht. induction ps as [|p t IH]; intros st dm Hps; cbn [evict_pods]; [constructor|].
-    assert (forall q, In q t -> find_pod (pid q) (r_pods prod r) = Some q /\ fit_ok c prod tbl q = true) as Hps'
+    assert (forall q, In q t -> find_pod (pkey q) (r_pods prod r) = Some q /\ fit_ok c prod tbl q = true) as Hps'
       by (intros q Hq; apply Hps; right; exact Hq).
     destruct (node_over prod r st) eqn:Eo; cbn [negb]; [|constructor].
     destruct (all_pos (snd st)) eqn:Ea; cbn [negb]; [|constructor].
@@ -195,7 +203,7 @@ Section Pass.
   Qed.
 
   Definition src_ok (prod : bool) (r : row) : Prop :=
-    find_row (rid r) tbl = Some r /\ rcls r = src_cls prod /\ NoDup (map pid (r_pods prod r)) /\
+    find_row (rid r) tbl = Some r /\ rcls r = src_cls prod /\ NoDup (map pkey (r_pods prod r)) /\
     (forall p, In p (r_pods prod r) -> 0 <= pcpu p /\ 0 <= pmem p).
 
   (* ---------------------------------------------------------------- NodeFit reservations *)
@@ -317,7 +325,7 @@ Section Pass.
     destruct (removable c prod (targets prod tbl) (r_pods prod r) resv) as [rem resv1].
     cbn [fst snd] in Hrem, Hinv1.
     assert (forall p, In p (sort_by pod_leb rem) ->
-              find_pod (pid p) (r_pods prod r) = Some p /\ fit_ok c prod tbl p = true) as Hps.
+              find_pod (pkey p) (r_pods prod r) = Some p /\ fit_ok c prod tbl p = true) as Hps.
     { intros p Hp. apply sort_by_in in Hp. destruct (Hrem p Hp) as [H1 H2].
       split; [apply find_pod_in; assumption|exact H2]. }
     pose proof (evict_pods_valid prod r Hd Hr Hc Ht (sort_by pod_leb rem) st dm Hps) as H1.
